@@ -75,7 +75,11 @@ def monitorSettle (s : St) (views : List (String × List (String × String))) (m
         | .left, some x => some ("left-not-left", s!"{a} lists gracefully left {nameOf m} as {x}")
         | .crashed, some "failed" => none
         | .crashed, none => none
-        | .crashed, some x => some ("crashed-not-failed", s!"{a} lists crashed {nameOf m} as {x}")
+        | .crashed, some x =>
+          -- candidate finding (Cluster model: `stale_left_counterexample`): a member that left, came back and then
+          -- crashed ends `left` once a peer that missed its second life spreads its stale "left" entry
+          some (if x == "left" && s.everLeft.contains m then "crashed-after-rejoin-shown-left" else "crashed-not-failed",
+                s!"{a} lists crashed {nameOf m} as {x}")
         | .forceleft, some "left" => none
         | .forceleft, none => none
         | .forceleft, some x => some ("forceleft-not-left", s!"{a} lists crashed and force-left {nameOf m} as {x}")
@@ -88,6 +92,9 @@ def step (s : St) (op : List String) (impl : String) : LineOut St :=
   -- a set-up failure of the harness (sockets, join under load) makes the rest of the case inconclusive
   if impl == "node-error" || impl == "join-failed" then
     { state := { s with dead := true }, model := none, note := some "setup-failed" } else
+  -- an op the harness refuses (e.g. `kill` of a node that is not running, produced when a case is shrunk) makes the
+  -- case ill-formed: what the model would expect afterwards does not describe what was run
+  if impl == "bad-op" then { state := { s with dead := true }, model := none, note := some "ill-formed-case" } else
   match op with
   | ["nodes", k] =>
     match k.toNat? with
